@@ -80,6 +80,8 @@ pub struct Ctx {
     pub health_conns: Vec<(u32, dsim::ConnId)>,
     pub closed_loop: Vec<ClosedLoopRec>,
     pub ip_pool: u32,
+    /// snapshots a directly driven reporter's queue refused (must stay 0: the queue is sized for all)
+    pub direct_refused: u64,
 }
 
 #[derive(Clone, Debug)]
@@ -332,6 +334,57 @@ fn drain_main(queue: Arc<roughenough::stats::StatsQueue>) {
     }
 }
 
+/// Address number `i` of the synthetic snapshots fed to a directly driven reporter.
+pub fn direct_addr(i: u8) -> IpAddr {
+    IpAddr::V4(Ipv4Addr::new(10, 9, 0, i))
+}
+
+/// The real `Reporter` with the harness in the role of the workers.
+fn reporter_direct_main(interval_s: u64, pushes: Vec<(u64, Vec<(u8, [u64; 8])>)>, linger_ms: u64) {
+    use roughenough::stats::{ClientStats, Reporter, StatsQueue};
+    use std::sync::atomic::{AtomicBool, Ordering};
+    dsim::logger::set_level(log::LevelFilter::Info);
+    let queue = Arc::new(StatsQueue::new(pushes.len().max(1)));
+    let keep = Arc::new(AtomicBool::new(true));
+    let (q, k) = (queue.clone(), keep.clone());
+    let feeder = verif_std::thread::Builder::new()
+        .name("feeder".to_string())
+        .spawn(move || {
+            let mut now_us = 0u64;
+            for (at_us, rows) in pushes {
+                if at_us > now_us {
+                    dsim::sleep(Duration::from_micros(at_us - now_us));
+                    now_us = at_us;
+                }
+                let snapshot: Vec<ClientStats> = rows
+                    .iter()
+                    .map(|(a, v)| ClientStats {
+                        rfc_requests: v[0] as u32,
+                        classic_requests: v[1] as u32,
+                        invalid_requests: v[2] as u32,
+                        health_checks: v[3] as u32,
+                        rfc_responses_sent: v[4] as u32,
+                        classic_responses_sent: v[5] as u32,
+                        bytes_sent: v[6] as usize,
+                        failed_send_attempts: v[7] as u32,
+                        retried_send_attempts: 0,
+                        first_seen: 1_700_000_000,
+                        ip_addr: direct_addr(*a),
+                    })
+                    .collect();
+                if q.push(snapshot).is_err() {
+                    ctx(|c| c.direct_refused += 1);
+                }
+            }
+            dsim::sleep(Duration::from_millis(linger_ms));
+            k.store(false, Ordering::SeqCst);
+        })
+        .unwrap();
+    let mut reporter = Reporter::new(queue, &Duration::from_secs(interval_s), Some(std::path::PathBuf::from("/tmp")));
+    reporter.processing_loop(&keep);
+    let _ = feeder.join();
+}
+
 /// An embedding program's earlier server: created for another seed on another port, used for
 /// nothing, dropped again before the servers under observation are created.
 fn prior_identity(spec: &ServerSpec, tag: i64) {
@@ -451,6 +504,8 @@ struct Parts {
     maxt: Vec<u8>,
     /// pre-encoded SREP / DELE override (when set the field-level parts above are ignored)
     srep_raw: Option<Vec<u8>>,
+    /// the classic layout without a top-level NONC (what Google's servers send)
+    omit_nonc: bool,
 }
 
 impl Parts {
@@ -481,7 +536,9 @@ impl Parts {
         cert.put(r::DELE, &self.dele_bytes());
         let mut m = r::Msg::new();
         m.put(r::SIG, &self.sig);
-        m.put(r::NONC, &self.nonce);
+        if !self.omit_nonc {
+            m.put(r::NONC, &self.nonce);
+        }
         m.put(r::PATH, &self.path);
         m.put(r::SREP, &self.srep_bytes());
         m.put(r::CERT, &cert.encode());
@@ -558,6 +615,7 @@ fn honest_parts(proto: r::Proto, long_seed: &[u8; 32], online_seed: &[u8; 32], r
         mint: 0u64.to_le_bytes().to_vec(),
         maxt: u64::MAX.to_le_bytes().to_vec(),
         srep_raw: None,
+        omit_nonc: slot.no_nonc && proto == r::Proto::Classic,
     };
     let m = midp_value(proto, slot);
     let (mint, maxt) = match slot.window {
@@ -586,7 +644,7 @@ fn other(proto: r::Proto) -> r::Proto {
 fn ref_respond(spec: &RefServerSpec, ordinal: usize, request: &[u8], src: SocketAddr) -> RefExchange {
     let long_seed = seed32(spec.long_seed, "ref-long");
     let online_seed = seed32(spec.online_seed, "ref-online");
-    let slot = spec.slots.get(ordinal).cloned().unwrap_or(SlotSpec { index: 0, depth: 0, midp_secs: 1_700_000_000, midp_sub_us: 0, forgeries: vec![], sibling_seed: 0, delay_us: 0, window: 0 });
+    let slot = spec.slots.get(ordinal).cloned().unwrap_or(SlotSpec { index: 0, depth: 0, midp_secs: 1_700_000_000, midp_sub_us: 0, forgeries: vec![], sibling_seed: 0, delay_us: 0, window: 0, no_nonc: false });
     let srv = r::srv_value(&r::pubkey_from_seed(&long_seed));
     let (proto, nonce) = match r::classify_request(request, &srv) {
         Ok(i) => (i.proto, i.nonce),
@@ -904,6 +962,9 @@ fn stream_tick(st: StreamState, k: u32, count: u32) {
 
 pub fn run(plan: &Plan, tape: dsim::Tape) -> RunOut {
     dsim::logger::install();
+    // the machine's time zone: chrono's `Local` reads the real variable (each execution has its
+    // own process, so nothing is carried over)
+    std::env::set_var("TZ", plan.world.tz.as_deref().unwrap_or("UTC"));
     log::set_max_level(log::LevelFilter::Off);
     CTX.with(|c| *c.borrow_mut() = Ctx::default());
     let world = dsim::World::new(plan.world.to_cfg(), tape);
@@ -1132,6 +1193,15 @@ pub fn run(plan: &Plan, tape: dsim::Tape) -> RunOut {
                         let target = ctx(|c| c.server_addr).expect("server address");
                         let srv = std::rc::Rc::new(ctx(|c| c.srv.clone()));
                         stream_tick(StreamState { first_sock, socks: socks.max(1), ietf_permille, interval_ns, nonce_base, target, srv, burst_max: burst_max.max(1) }, 0, count);
+                    })
+                });
+            }
+            Action::ReporterDirect { interval_s, pushes, linger_ms } => {
+                dsim::with(|w| {
+                    w.at(at, move || {
+                        dsim::with(|w| {
+                            w.spawn_proc("reporter-direct", vec![], BTreeMap::new(), true, move || reporter_direct_main(interval_s, pushes, linger_ms));
+                        })
                     })
                 });
             }
